@@ -1,0 +1,62 @@
+//go:build verif
+// +build verif
+
+// Machine-checked contracts for this package (checked by /verif/govc).
+// Comment-only: no executable code.
+
+package rest
+
+//@ import http "net/http"
+//@ import gctx "github.com/gorilla/context"
+//@ import mux "github.com/gorilla/mux"
+//@ import sdk "github.com/cosmos/cosmos-sdk/types"
+//@ import dtypes "github.com/ovrclk/akash/x/deployment/types"
+//@ import mtypes "github.com/ovrclk/akash/x/market/types"
+
+// per-request context (gorilla/context) and URL variables (gorilla/mux), A-HTTP
+//@ import rest "github.com/ovrclk/akash/provider/gateway/rest"
+//@ ghost ReqCtx: map[ref]map[int]iface
+//@ extern gctx.Get(r, key)
+//@   pure
+//@   requires typeis(key, rest.contextKey)
+//@   ensures result == ReqCtx[r][unbox(key, rest.contextKey)]
+//@ extern gctx.Set(r, key, val)
+//@   requires typeis(key, rest.contextKey)
+//@   modifies ghost ReqCtx
+//@   ensures ReqCtx == old(ReqCtx)[r := old(ReqCtx)[r][unbox(key, rest.contextKey) := val]]
+//@ spec urlVar(r: ref, name: str): str
+//@ extern mux.Vars(r)
+//@   fresh
+//@   ensures result != nil && (forall k: str {urlVar(r, k)} :: result[k] == urlVar(r, k) && (has(result, k) || urlVar(r, k) == ""))
+
+// C09 (scoping): whatever the URL contains, a deployment- or lease-scoped request is resolved to an id whose owner is
+// the authenticated account (the address stored in the request context by requireOwner) and - for leases - whose
+// provider is this provider; the URL only supplies the sequence numbers.
+//@ func requestOwner
+//@   requires req != nil
+//@   ensures result == ReqCtx[req][ownerContextKey]
+//@ func requestProvider
+//@   requires req != nil
+//@   ensures result == ReqCtx[req][providerContextKey]
+//@ func parseDeploymentID
+//@   requires req != nil && typeis(ReqCtx[req][ownerContextKey], sdk.AccAddress)
+//@   ensures [owner] result1 == nil ==> result0.Owner == old(bech32(unbox(ReqCtx[req][ownerContextKey], sdk.AccAddress)))
+//@   ensures [dseq] result1 == nil ==> result0.DSeq == atoi(urlVar(req, "dseq"))
+//@ func parseLeaseID
+//@   requires req != nil && typeis(ReqCtx[req][ownerContextKey], sdk.AccAddress) && typeis(ReqCtx[req][providerContextKey], sdk.AccAddress)
+//@   requires !fresh(ReqCtx[req][ownerContextKey]) && !fresh(ReqCtx[req][providerContextKey])
+//@   ensures [owner] result1 == nil ==> result0.Owner == old(bech32(unbox(ReqCtx[req][ownerContextKey], sdk.AccAddress)))
+//@   ensures [provider] result1 == nil ==> result0.Provider == old(bech32(unbox(ReqCtx[req][providerContextKey], sdk.AccAddress)))
+//@   ensures [seqs] result1 == nil ==> result0.DSeq == atoi(urlVar(req, "dseq")) && result0.GSeq == atoi(urlVar(req, "gseq")) && result0.OSeq == atoi(urlVar(req, "oseq"))
+
+// the authenticated account is the one named in the (verified) peer certificate's subject
+//@ extern http.Error(w, error, code)
+//@ extern http.(Handler).ServeHTTP(recv, w, r)
+//@   modifies ghost ReqCtx
+//@ func requireOwner$1$1
+//@   requires r != nil
+//@   modifies ghost ReqCtx
+//@   oncall context.Set 1 assert typeis(ReqCtx[r][ownerContextKey], sdk.AccAddress) && validBech32(r.TLS.PeerCertificates[0].Subject.CommonName)
+//@        && unbox(ReqCtx[r][ownerContextKey], sdk.AccAddress) == unbech32(r.TLS.PeerCertificates[0].Subject.CommonName)
+
+//@ property C09 := requireOwner$1$1#*, requestOwner#*, requestProvider#*, parseDeploymentID#*, parseLeaseID#*
